@@ -12,6 +12,7 @@ import (
 	"testing"
 	"time"
 
+	"github.com/coredhcp/coredhcp/plugins/allocators/bitmap"
 	"github.com/insomniacslk/dhcp/dhcpv6"
 )
 
@@ -136,6 +137,50 @@ func TestGovcReplay(t *testing.T) {
 		t.Logf("delegated %v; asking for %v again returned %v", first, first[0], again)
 		if len(again) != 1 || !again[0].IP.Equal(first[0].IP) {
 			t.Fatalf("GOVC-REPRODUCED: the reply delegated %v, but renewing %v returned %v: the first prefix was not remembered", first, first[0], again)
+		}
+	case strings.Contains(in.Obligation, "lease-sent-runs-a-full-lease-duration"):
+		// a client whose lease was last renewed three hours ago comes back (hint-less IA_PD, then an
+		// exact-match renewal): the prefix must be sent with positive lifetimes, preferred <= valid <= 1h
+		_, pool, _ := net.ParseCIDR("2001:db8::/48")
+		alloc, err := bitmap.NewBitmapAllocator(*pool, 64)
+		if err != nil {
+			t.Fatalf("GOVC-PRECONDITION: %v", err)
+		}
+		hd := &Handler{Records: make(map[string][]lease), allocator: alloc}
+		lifetimes := func(req *dhcpv6.Message) (out []*dhcpv6.OptIAPrefix) {
+			resp, _ := dhcpv6.NewReplyFromMessage(req)
+			r, _ := hd.Handle(req, resp)
+			if r == nil {
+				return nil
+			}
+			for _, ia := range r.(*dhcpv6.Message).Options.IAPD() {
+				out = append(out, ia.Options.Prefixes()...)
+			}
+			return out
+		}
+		first := lifetimes(govcRequest(t, 1, &dhcpv6.OptIAPD{IaId: [4]byte{1}}))
+		if len(first) != 1 {
+			t.Fatalf("GOVC-PRECONDITION: first exchange returned %v", first)
+		}
+		for round, mk := range []func() *dhcpv6.Message{
+			func() *dhcpv6.Message { return govcRequest(t, 1, &dhcpv6.OptIAPD{IaId: [4]byte{1}}) },
+			func() *dhcpv6.Message {
+				return govcRequest(t, 1, &dhcpv6.OptIAPD{IaId: [4]byte{1}, Options: dhcpv6.PDOptions{Options: dhcpv6.Options{&dhcpv6.OptIAPrefix{Prefix: first[0].Prefix}}}})
+			},
+		} {
+			for k := range hd.Records {
+				for i := range hd.Records[k] {
+					hd.Records[k][i].Expire = time.Now().Add(-3 * time.Hour)
+				}
+			}
+			got := lifetimes(mk())
+			if len(got) != 1 {
+				t.Fatalf("GOVC-PRECONDITION: round %d returned %v", round, got)
+			}
+			p := got[0]
+			if p.PreferredLifetime <= 0 || p.ValidLifetime <= 0 || p.PreferredLifetime > p.ValidLifetime || p.ValidLifetime > time.Hour {
+				t.Fatalf("GOVC-REPRODUCED: a client returning after its lease ran out is sent %v with preferred %v / valid %v (must be positive, preferred <= valid <= 1h)", p.Prefix, p.PreferredLifetime, p.ValidLifetime)
+			}
 		}
 	default:
 		t.Skip("no scenario for this obligation")
